@@ -267,3 +267,13 @@ PROPS["C05"] = dict(
              record_args={"quick": ["-n", 24, "-pts", 30], "thorough": ["-n", 1600, "-pts", 80]}, shards={"quick": 8, "thorough": 16}),
     ],
 )
+
+PROPS["C20"] = dict(
+    family="purity", specdir="purity",
+    technique="TLA+ session model (heap of content digests, memo of call signatures, per-goroutine program counters) validating recorded calls to ~90 exported entry points: arguments untouched except the receiver of a documented in-place operation, equal signatures give bit-identical results across intervening calls and across 16 goroutines; the recording binary is built with the Go race detector",
+    level_text="Session.tla: every recorded call is one Call step; TLC checks that each argument's digest is unchanged since it was last seen and after the call (unless it is the flagged receiver of an operation in the documented in-place set), that a signature seen before returns the identical result digest, and per-goroutine sequence numbers. The recorder builds random unsorted inputs with ties (slices, weighted and unweighted Samples, multigraphs, histograms, StreamStats, KDEs, scales, NodeMarks), calls every entry point three times in shuffled order with the in-place operations in between, then issues random read-only calls from 16 goroutines on the same shared inputs; the binary is built with -race and a reported race aborts the recording and is reported as the violation",
+    level_note="Trusted: TLC, the digest functions of the recorder (FNV-1a over float bits, ints, adjacency lists), the Go race detector as the only oracle for data races. Schedules are sampled, not enumerated (the library has no synchronisation points to gate), so race-freedom is as strong as the race detector on the observed executions: the concurrent part is exploration inside a model-checked session.",
+    stages=[dict(name="session", kind="trace", race=True, module="Session.tla", cfg="Session.cfg",
+                 record_args={"quick": ["-n", 8, "-reps", 3, "-goroutines", 16, "-calls", 100], "thorough": ["-n", 200, "-reps", 3, "-goroutines", 16, "-calls", 1500]},
+                 shards={"quick": 4, "thorough": 16})],
+)
